@@ -8,6 +8,7 @@ class C15(TieCheck):
     pid = "C15"
     area = "C15"
     props = "Props_C15.v"
+    gentie = "C15"
     harness = "c15"
     shards = 16
     extra_trust = [
